@@ -117,6 +117,15 @@ func inboundMappedType(typ *schema.TypeUnion, stg schema.UnionRepresentation_Key
 // asKinded can be called on a kinded union node to obtain a node
 // representing one of its members, identified by kind.
 func (w *_nodeRepr) asKinded(stg schema.UnionRepresentation_Kinded, kind datamodel.Kind) *_nodeRepr {
+	// Whatever kind the caller hopes for, the node is its one active member: an accessor that does
+	// not suit that member's kind then gets the member's own wrong-kind answer, rather than a
+	// reflect panic on the nil pointer of the member that would have had that kind.
+	if haveIdx, mval := unionMember(w.val); haveIdx >= 0 {
+		w2 := *w
+		w2.val = mval
+		w2.schemaType = w.schemaType.(*schema.TypeUnion).Members()[haveIdx]
+		return &w2
+	}
 	name := stg.GetMember(kind)
 	members := w.schemaType.(*schema.TypeUnion).Members()
 	for i, member := range members {
@@ -438,8 +447,8 @@ func (w *_nodeRepr) Length() int64 {
 	case schema.UnionRepresentation_Keyed:
 		return (*_node)(w).Length()
 	case schema.UnionRepresentation_Kinded:
-		w = w.asKinded(stg, w.Kind())
-		return (*_node)(w).Length()
+		// (the member's own representation length: e.g. a struct member does not count absent fields)
+		return w.asKinded(stg, w.Kind()).Length()
 	default:
 		return (*_node)(w).Length()
 	}
